@@ -116,14 +116,16 @@ package codec
 
 // A nested encode works on its own fresh buffer (assumed frame; the walk itself is outside the subset).
 //@ func (*Codec).encode
-//@   opt assumed nested encoding writes to a buffer of its own and returns its bytes
+//@   opt assumed nested encoding writes to a buffer of its own and returns its bytes: a JSON object, so at least "{}"
 //@   modifies fresh:result0
+//@   ensures result1 == nil ==> len(result0) >= 2
 
 // README "Any": {"!type": <type name>, "value": <encoded message>}
 //@ func (*encoder).encodeAny
 //@   opt strings smt
 //@   requires enc != nil && enc.b != nil && codecOK(enc.codec)
 //@   assert at return#7 framed: out(enc) == old(out(enc)) + "{" + jq("!type") + ":" + jq(val.TypeName) + "," + jq("value") + ":" + string(jsonData) + "}"
+//@   assert at add#0 payload: len(jsonData) > 0
 
 // README "Enum": the short option name as a JSON string
 //@ func (*encoder).encodeEnum
